@@ -48,7 +48,7 @@ FileNames(d) == StdFiles \o [i \in DOMAIN d.deps |-> d.deps[i].pkg \o ".proto"] 
 FileMsgs(d, i) == IF i <= Len(StdFiles) THEN <<>>
                   ELSE IF i = Len(FileNames(d)) THEN d.msgs ELSE d.deps[i - Len(StdFiles)].msgs
 
-ConfigFails(cfg) == cfg.fault \in {"missingfile", "malformed", "notypes", "emptytypes"} \/ cfg.types = <<>>
+ConfigFails(cfg) == cfg.fault \in {"missingfile", "malformed", "mistypedlist", "mistypedbool", "mistypedmap", "notypes", "emptytypes"} \/ cfg.types = <<>>
 
 \* the run as a function of its input
 RunOut(d, cfg) ==
